@@ -60,9 +60,9 @@ type H struct {
 	sentinel string // directory that contains the root and an outside layout
 	outside  []string
 	histN    int
-	sessN    map[string]int    // real session id -> public number
-	sessID   map[int]string    // public number -> real id
-	sessRepo map[int]string    // public number -> repository it was created in
+	sessN    map[string]int // real session id -> public number
+	sessID   map[int]string // public number -> real id
+	sessRepo map[int]string // public number -> repository it was created in
 	mon      *Monitors
 	lineNo   int
 	now      time.Time
